@@ -191,6 +191,11 @@ class Workspace(AbstractContextManager):
 
         writable = self.geoh5.mode in ["r+", "a"]
         if writable:
+            # entities removed from their parent and dropped since the last listing:
+            # delete their nodes before the file is closed
+            self.remove_none_referents(self._data, "Data")
+            self.remove_none_referents(self._objects, "Objects")
+
             for entity in self.groups:
                 if isinstance(entity, Concatenator) and self.repack:
                     self.update_attribute(entity, "concatenated_attributes")
